@@ -20,6 +20,7 @@ MODEL_SWITCHES = [
     ("MC_Conc4", "MC_Conc4_bug1.cfg", "LinOK", "split unlocks its borders before it owns the parent lock"),
     ("MC_Conc4", "MC_Conc4_bug2.cfg", "LinOK", "interior insert without the inserting mark"),
     ("MC_Conc4", "MC_Conc4_bug3.cfg", "LinOK", "interior delete (shift) without the inserting mark"),
+    ("MC_Conc4", "MC_Conc4_bug5.cfg", "ScanOK", "multi-border scan without any re-validation"),
     ("YkEpoch", "MC_Epoch_bug.cfg", "SafeStrong", "F5: two-step enter"),
     ("YkLife", "MC_Life_bug.cfg", "ThreadsAliveWhileRunning", "F4: stop flags not cleared"),
     ("MC_Tree", "MC_Tree_scan5_f2.cfg", "ScanOK", "F2: scan uses l_key with INF"),
